@@ -119,7 +119,42 @@ ENTRY = {
     "r.grouped": rparse.parse_jelly_grouped,
 }
 
+def _calibration_input() -> bytes:
+    """5 000 empty frames in front of a small valid stream: every frame makes the grouped parsers build a sink."""
+    from pyjelly import jelly
+
+    f = jelly.RdfStreamFrame(rows=[
+        jelly.RdfStreamRow(options=jelly.RdfStreamOptions(physical_type=2, max_name_table_size=16, version=1)),
+        jelly.RdfStreamRow(name=jelly.RdfNameEntry(id=0, value="http://e/s")),
+        jelly.RdfStreamRow(quad=jelly.RdfQuad(s_iri=jelly.RdfIri(name_id=1), p_iri=jelly.RdfIri(name_id=1), o_iri=jelly.RdfIri(name_id=1),
+                                               g_default_graph=jelly.RdfDefaultGraph()))])
+    body = f.SerializeToString()
+    return b"\x00" * 5000 + bytes([len(body)]) + body
+
+
+CALIB = _calibration_input()
+
+
+def calibrate() -> float:
+    """CPU seconds per input byte of a benign LINEAR workload measured now, in this process: 5 000 empty frames of a valid QUADS stream
+    through the rdflib grouped parser (one rdflib Dataset per frame: the most expensive kind of well-behaved input per byte).  The
+    budgets below are stated in this unit, so a machine made slow by other work (CPU time inflates too: shared caches, SMT siblings)
+    moves the budget with the measurement."""
+    t0 = time.process_time()
+    run(ENTRY["r.grouped"], CALIB)
+    return max(1e-6, (time.process_time() - t0) / 5000)
+
+
+IDLE_RATE = 27e-6          # what calibrate() gives on this image when nothing else runs
+rate = calibrate()
+
 for i, data in enumerate(inputs):
+    if len(data) >= 20000:
+        rate = calibrate()
+    scale = max(1.0, rate / IDLE_RATE)
+    # promptly: a constant plus time in proportion to the input, both in CPU seconds of this process and in today's units
+    budget_s = 5.0 * scale + len(data) * max(50e-6, 2.0 * rate)
+    CPU_LIMIT_S = max(20.0 * scale, 1.1 * budget_s)
     outcomes = {}
     max_s = 0.0
     hung = False
@@ -189,4 +224,4 @@ for i, data in enumerate(inputs):
     except Exception:  # noqa: BLE001
         canon = None
     rss = resource.getrusage(resource.RUSAGE_SELF).ru_maxrss // 1024
-    print(json.dumps({"i": i, "outcomes": outcomes, "max_s": round(max_s, 3), "rss_mb": rss, "peak_alloc_mb": round(PEAK[0] / 1e6, 1), "hung": hung, "canon": canon, "canon_outcome": canon_outcome}), flush=True)
+    print(json.dumps({"i": i, "outcomes": outcomes, "max_s": round(max_s, 3), "budget_s": round(budget_s, 3), "cpu_rate_us_per_byte": round(rate * 1e6, 1), "rss_mb": rss, "peak_alloc_mb": round(PEAK[0] / 1e6, 1), "hung": hung, "canon": canon, "canon_outcome": canon_outcome}), flush=True)
